@@ -129,7 +129,86 @@ def h18b_live(c, n=2):
     h12_live(_OnlyCounts(c), n=n)
 
 
+def h18c(c, N=3, focus="C18"):
+    """two simulated clients (A: the default client, with a symbolic transaction limit; B: no limit) through the real order flow
+    (Market.place_order / replace_order -> Transaction -> controls -> package -> SimulatedExecution handlers) for a symbolic script
+    of N requests, a shadow ledger per client kept by the harness.
+    C18 focus: per-client counters = bets submitted by that client, A refused exactly when over its own limit, B never refused;
+    C08 focus: after the close each client's cleared summary covers exactly the orders that client placed (replacements included)"""
+    from flumine.order.order import OrderStatus
+    with cm.config_set(simulated=True, place_latency=0.0, replace_latency=0.0):
+        limit = c.choose("A_transaction_limit", [0, 1, 2, None])
+        fl, (A, B), (strategy,) = cm.new_sim(n_clients=2, client_kwargs=[dict(username="A", transaction_limit=limit, commission_base=0.05),
+                                                                         dict(username="B", transaction_limit=None, commission_base=0.02)],
+                                              strategy_kwargs=dict(max_live_trade_count=100, max_order_exposure=None, max_selection_exposure=None))
+        bk = cm.book([cm.runner(1, atb=[{"price": 3.0, "size": 100000.0}]), cm.runner(2)])
+        market = cm.add_market(fl, bk)
+        ctl = {X: [t for t in X.trading_controls if t.NAME == "MAX_TRANSACTION_COUNT"][0] for X in (A, B)}
+        shadow = {A: 0, B: 0}
+        placed = {A: [], B: []}  # every order (replacements included) that belongs to the client, by the harness's own book-keeping
+        with fl.simulated_datetime:
+            fl.simulated_datetime(bk.publish_time)
+            for k in range(N):
+                who = c.choose("step%d_client" % k, ["A", "B"])
+                X = A if who == "A" else B
+                live = [o for o in placed[X] if o.status == OrderStatus.EXECUTABLE and o.size_remaining > 0]
+                kind = c.choose("step%d_request" % k, ["place-rest", "place-cross"] + (["replace-rest", "replace-cross"] if live else []))
+                over = X.transaction_limit is not None and shadow[X] > X.transaction_limit
+                with c.guard("step%d" % k):
+                    if kind.startswith("place"):
+                        o = cm.mk_limit(strategy, "BACK", 5.0 if kind == "place-rest" else 2.5, 5.0)
+                        ok = market.place_order(o, client=X)
+                    else:
+                        o = live[0]
+                        ok = market.replace_order(o, (6.0 if o.order_type.price != 6.0 else 7.0) if kind == "replace-rest" else 2.5)
+                    n_new = 0
+                    while fl.handler_queue:
+                        p = fl.handler_queue.pop(0)
+                        c.ob("step%d.package-belongs-to-requesting-client" % k, p.client is X)
+                        n_new += len(p._orders)
+                        p.client.execution.handler(p)
+                    fl._process_simulated_orders(market)
+                if who == "B":
+                    c.ob("step%d.unlimited-client-never-refused" % k, ok is True)
+                else:
+                    c.ob("step%d.refused<=>over-own-limit" % k, (ok is False) == over, limit=limit, submitted=shadow[X])
+                if ok:
+                    shadow[X] += n_new
+                    if kind.startswith("place"):
+                        placed[X].append(o)
+                    else:
+                        rep = [x for x in market.blotter if x not in placed[A] and x not in placed[B]]
+                        c.ob("step%d.one-replacement-order" % k, len(rep) == 1)
+                        for x in rep:
+                            c.ob("step%d.replacement-belongs-to-the-same-client" % k, x.client is X)
+                            placed[X].append(x)
+                        c.cover("replaced")
+                    c.cover("accepted")
+                else:
+                    c.cover("refused")
+                if focus == "C18":
+                    for Y, nm in ((A, "A"), (B, "B")):
+                        c.ob("step%d.%s.total-count=bets-submitted" % (k, nm), ctl[Y].transaction_count == shadow[Y], got=ctl[Y].transaction_count, want=shadow[Y])
+                        c.ob("step%d.%s.hour-count=bets-submitted" % (k, nm), ctl[Y].current_transaction_count == shadow[Y])
+                        c.ob("step%d.%s.no-failures-counted" % (k, nm), ctl[Y].transaction_count_total == shadow[Y])
+                        c.ob("step%d.%s.client-view" % (k, nm), sorted(id(x) for x in market.blotter.client_orders(Y)) == sorted(id(x) for x in placed[Y]))
+        if focus == "C08":
+            res = c.choose("runner_status", ["WINNER", "LOSER"])
+            cb = cm.book([cm.runner(1, status=res), cm.runner(2, status="LOSER" if res == "WINNER" else "WINNER")], status="CLOSED")
+            market.blotter.process_closed_market(market, cb)
+            for Y, nm, rate in ((A, "A", 0.05), (B, "B", 0.02)):
+                with c.guard("cleared"):
+                    cl = market.cleared(Y)
+                matched = [x for x in placed[Y] if x.size_matched > 0]
+                want = sum((x.size_matched * (x.average_price_matched - 1)) if res == "WINNER" else -x.size_matched for x in matched)
+                c.ob("cleared.%s.bet-count=orders-this-client-placed" % nm, cl["betCount"] == len(matched), got=cl["betCount"], want=len(matched))
+                c.ob("cleared.%s.profit=sum-over-orders-this-client-placed" % nm, abs(cl["profit"] - want) < 0.011, got=cl["profit"], want=want)
+                c.ob("cleared.%s.commission-at-own-rate" % nm, abs(cl["commission"] - max(round(cl["profit"] * rate, 2), 0)) < 0.011)
+            c.cover("cleared")
+
+
 HARNESSES = [
+    Harness("H18c", h18c, quick=dict(N=3), thorough=dict(N=4), pattern="P3 bounded history (schedule symbolic)", requires=["accepted", "refused", "replaced"], selfcheck=False),
     Harness("H18b-sim", h18b_sim, quick=dict(n=2), pattern="P5 fault schedule as a variable", requires=["handled"]),
     Harness("H18b-live", h18b_live, quick=dict(n=2), pattern="P5 fault schedule as a variable", requires=["handled"], max_paths=(300000, 3000000)),
     Harness("H18a", h18a, quick=dict(steps=2), thorough=dict(steps=3), pattern="P2 inductive step (+ short history)", clock_modules=("flumine.controls.clientcontrols",),
